@@ -480,6 +480,21 @@ def check(pid, tier='quick', verif_seed=0, workers=None, n_runs=None,
     return status
 
 
+def _shrink(obj, depth=0):
+    """Samples are for a human reader: cut long strings and lists short."""
+    if isinstance(obj, str):
+        return obj if len(obj) <= 160 else obj[:120] + '...<%d chars>' % len(
+            obj)
+    if isinstance(obj, list):
+        out = [_shrink(x, depth + 1) for x in obj[:24]]
+        if len(obj) > 24:
+            out.append('...<%d more>' % (len(obj) - 24))
+        return out
+    if isinstance(obj, dict):
+        return {k: _shrink(v, depth + 1) for k, v in obj.items()}
+    return obj
+
+
 def write_evidence(mod, pid, tier, verif_seed, tot, det, wall, n_new,
                    known_ids, workers):
     os.makedirs(EVIDENCE_DIR, exist_ok=True)
@@ -491,7 +506,8 @@ def write_evidence(mod, pid, tier, verif_seed, tot, det, wall, n_new,
                             'schedule + every observed event) among runs '
                             'that met the non-trivial rule',
         'rule': mod.RULE,
-        'samples': tot['samples'] or [{'note': 'no nontrivial run'}],
+        'samples': _shrink(tot['samples']) or [
+            {'note': 'no nontrivial run'}],
         'exhaustive': bool(getattr(mod, 'EXHAUSTIVE', {}).get(tier, False)),
         'runs_per_hour': int(tot['runs'] / max(wall, 1e-6) * 3600),
         'sim_seconds': round(tot['sim_s'], 3),
